@@ -283,6 +283,7 @@ fn mk(name: &str, wcfg: usize, env: Option<&str>, wexp: usize, script: Vec<Read>
         empty_fill_first: false,
         short_at: None,
         process_cap: 0,
+        cfg_bs: 0,
     }
 }
 
@@ -338,6 +339,12 @@ fn c05_scenarios(thorough: bool) -> Vec<Scenario> {
     for &(w, f, cap) in caps {
         let mut s = mk(&format!("cap{cap}_cfg_w{w}_f{f}"), w, None, w, data(f), 6, false, pb);
         s.process_cap = cap;
+        v.push(s);
+    }
+    // config.block_size below / above the block-size argument: the argument decides in both modes
+    for (w, f, cfg_bs) in [(1usize, 2usize, 64usize), (2, 2, 4096)] {
+        let mut s = mk(&format!("cfgbs{cfg_bs}_cfg_w{w}_f{f}"), w, None, w, data(f), 6, false, pb);
+        s.cfg_bs = cfg_bs;
         v.push(s);
     }
     // the same with byte delivery (the feeder's byte path has a queue hand-over of its own)
@@ -466,6 +473,18 @@ fn c06_scenarios(thorough: bool) -> Vec<Scenario> {
         let mut sc = mk(&format!("cap1_w1_f2_{name}"), 1, None, 1, script, 0, false, 2);
         sc.process_cap = 1;
         v.push(sc);
+    }
+    // config.block_size below / above the block-size argument: faults are reported as in single-thread mode,
+    // and a fault-free source is not refused
+    for (cfg_bs, w) in [(64usize, 1usize), (4096, 2)] {
+        let mut s = mk(&format!("cfgbs{cfg_bs}_w{w}_f2_faultfree"), w, None, w, data(2), 0, false, 2);
+        s.cfg_bs = cfg_bs;
+        v.push(s);
+        for (name, script) in fault_scripts(2).into_iter().filter(|(n, _)| !n.contains('+') && (thorough || w == 1 || n == "badsample@0")) {
+            let mut s = mk(&format!("cfgbs{cfg_bs}_w{w}_f2_{name}"), w, None, w, script, 0, false, 2);
+            s.cfg_bs = cfg_bs;
+            v.push(s);
+        }
     }
     // fault-free scripts: termination with every frame exactly once
     for w in 1..=2usize {
